@@ -1,3 +1,3 @@
 SPECIFICATION TraceSpec
-CONSTANTS Props = {"C01"} BytesMode = "padded"
+CONSTANTS Props = {"C04"} BytesMode = "padded"
 CHECK_DEADLOCK FALSE
